@@ -71,6 +71,27 @@ def build(root, nodes, seed):
     return rel
 
 
+def has_cycle(nodes):
+    """the graph directory -> child, link -> target (Tree.tla's Acyclic): dereferencing is only defined without cycles"""
+    n = len(nodes)
+    edges = {i: set() for i in range(1, n + 1)}
+    for j, nd in enumerate(nodes, start=1):
+        if nd["p"]:
+            edges[nd["p"]].add(j)
+        if nd["k"] == "link" and nd["t"]:
+            edges[j].add(nd["t"])
+    for i in range(1, n + 1):
+        seen, todo = set(), list(edges[i])
+        while todo:
+            x = todo.pop()
+            if x == i:
+                return True
+            if x not in seen:
+                seen.add(x)
+                todo.extend(edges[x])
+    return False
+
+
 def kind_of(st, size):
     if stat.S_ISLNK(st.st_mode):
         return "link"
